@@ -337,6 +337,7 @@ struct Worker {
    int slot = 0;
    std::string buf;
    long inflight = -1;      // index with a B but no E yet
+   Clock::time_point began;
    std::string errfile;
    bool done = false;
 };
@@ -355,13 +356,14 @@ struct BatchStats {
    std::map<size_t, uint64_t> digest_by_index; // for the determinism recheck sample
    std::vector<Candidate> candidates;
    bool deadline_hit = false;
+   std::vector<std::pair<double, size_t>> slowest;   // (seconds, index) of the three slowest runs, measured by the parent
 };
 
 void worker_main(const Scenario& sc, const Options& o, int slot, int nworkers, size_t start, size_t total,
                  size_t nprologue, int fd, Clock::time_point deadline)
 {
    for (size_t i = start; i < total; i += size_t(nworkers)) {
-      if ((i - start) / size_t(nworkers) % 16 == 0 and Clock::now() > deadline) break;
+      if (Clock::now() > deadline) break;
       char head[64];
       int n = std::snprintf(head, sizeof head, "B %zu\n", i);
       (void) !write(fd, head, size_t(n));
@@ -438,12 +440,17 @@ BatchStats run_batch(const Scenario& sc, const Options& o, size_t nprologue, siz
    }
    auto handle_line = [&](Worker& w, const std::string& line) {
       if (line.empty()) return;
-      if (line[0] == 'B') w.inflight = std::strtol(line.c_str() + 2, nullptr, 10);
+      if (line[0] == 'B') { w.inflight = std::strtol(line.c_str() + 2, nullptr, 10); w.began = Clock::now(); }
       else if (line[0] == 'E') {
          size_t tab = line.find('\t');
          size_t idx = std::strtoull(line.c_str() + 2, nullptr, 10);
          RunResult r;
          if (tab != std::string::npos and decode_result(line.substr(tab + 1), r)) absorb(bs, idx, r, recheck_index(idx));
+         if (w.inflight >= 0) {
+            bs.slowest.push_back({ seconds_since(w.began), idx });
+            std::sort(bs.slowest.rbegin(), bs.slowest.rend());
+            if (bs.slowest.size() > 3) bs.slowest.resize(3);
+         }
          w.inflight = -1;
       }
       else if (line[0] == 'D') w.done = true;
@@ -856,6 +863,11 @@ int cmd_check(const Options& o0, const char* argv0)
                sc.id(), (unsigned long long) bs.runs, (unsigned long long) bs.ok, (unsigned long long) bs.skipped,
                (unsigned long long) bs.violations, (unsigned long long) bs.crashes, bs.digests.size(),
                (unsigned long long) bs.steps, wall, batch_s > 0 ? bs.runs / batch_s : 0.0);
+   {
+      std::string line = "  slowest runs:";
+      for (auto& sl : bs.slowest) { char b[64]; std::snprintf(b, sizeof b, " index=%zu %.2fs", sl.second, sl.first); line += b; }
+      std::printf("%s\n", line.c_str());
+   }
    {
       auto names = sc.probe_names();
       std::string line = "  probes:";
